@@ -35,6 +35,7 @@ structure Task where
   prev : Option Nat := none
   data : Vars := []
   err : Option Err := none
+  hooksReady : Bool := false     -- the catch hooks are registered by `init` (after the `if` test)
 
 structure Msg where
   pid : String
@@ -396,7 +397,7 @@ partial def runHooks (tid : Nat) : M Unit := do
   match ownLifeCycle t.state with
   | some .errorCatch =>
     let n ← nodeOf tid
-    let catches : List Catch := match n.content with
+    let catches : List Catch := if !t.hooksReady then [] else match n.content with
       | .step s => s.catches
       | .act a => a.catches
       | _ => []
@@ -495,6 +496,7 @@ partial def initStep (tid : Nat) (s : Step) : M Unit := do
   match s.cond with
   | some c => if !(← evalCond c tid) then setState tid .skipped; return
   | none => pure ()
+  putTask { (← getTask tid) with hooksReady := true }
   if !s.timeouts.isEmpty then throw (.unsupported "timeout")
   if !s.setup.isEmpty then throw (.unsupported "setup")
 
@@ -518,6 +520,7 @@ partial def initAct (tid : Nat) (a : Act) : M Unit := do
   match a.cond with
   | some c => if !(← evalCond c tid) then setState tid .skipped; return
   | none => pure ()
+  putTask { (← getTask tid) with hooksReady := true }
   if !a.timeouts.isEmpty then throw (.unsupported "timeout")
   if !a.setup.isEmpty then throw (.unsupported "setup")
   if a.uses.isEmpty then throw .noUses
